@@ -44,6 +44,8 @@ from .constants import OPEN_REQUEST_PTY_FAILED, OPEN_REQUEST_SESSION_FAILED
 
 from .editor import SSHLineEditorChannel, SSHLineEditorSession
 
+from .forward import SSHForwarder
+
 from .logging import SSHLogger
 
 from .misc import ChannelOpenError, EnvMap, MaybeAwait, ProtocolError
@@ -488,6 +490,8 @@ class SSHChannel(Generic[AnyStr], SSHPacketHandler):
             self, result: MaybeAwait[SSHSession[AnyStr]]) -> None:
         """Finish processing a channel open request"""
 
+        session: Optional[SSHSession[AnyStr]] = None
+
         try:
             if inspect.isawaitable(result):
                 session = await cast(Awaitable[SSHSession[AnyStr]], result)
@@ -520,6 +524,10 @@ class SSHChannel(Generic[AnyStr], SSHPacketHandler):
                 assert self._send_chan is not None
                 self._conn.send_channel_open_failure(self._send_chan, exc.code,
                                                      exc.reason, exc.lang)
+            elif isinstance(session, SSHForwarder):
+                # The connection was lost while the forwarding target was
+                # being connected: close the forwarder's end as well
+                session.close()
 
             self._loop.call_soon(self._cleanup)
 
